@@ -117,16 +117,27 @@ def show_tree(t):
     return '(%s %s %s)' % (show_tree(t[1]), t[0], show_tree(t[2]))
 
 
-def context_program(body, k, pname='p', cname='c', continuation=False):
+def context_program(body, k, pname='p', cname='c', continuation=False, prefix=False, suffix=0):
     """the adversarial context of DESIGN C05:
-         p(V1..Vk[,W]) :- BODY [, m(W)].
+         p(V1..Vk[,P][,W[,W2]]) :- [m(P),] BODY [, m(W) [, o(W2)]].
          p(9,..,9).                         a later clause of the same predicate
-         c(V1..Vk[,W],Z) :- m(Z), p(V1..).  a caller with two alternatives
+         c(V1..Vk..,Z) :- m(Z), p(V1..).    a caller with two alternatives
+       prefix: a goal with two solutions to the LEFT of the body (its alternatives must be cut);
+       suffix: 0, 1 or 2 goals to the RIGHT of the body (they must still backtrack)
     """
+    if continuation and not suffix:
+        suffix = 1
     hv = [V('V%d' % i) for i in range(1, k + 1)]
-    if continuation:
+    if prefix:
+        hv = hv + [V('P')]
+        body = (',', call(F('m', V('P'))), body)
+    if suffix >= 1:
         hv = hv + [V('W')]
-        body = (',', body, call(F('m', V('W'))))
+        if suffix >= 2:
+            hv = hv + [V('W2')]
+            body = (',', body, (',', call(F('m', V('W'))), call(F('o', V('W2')))))
+        else:
+            body = (',', body, call(F('m', V('W'))))
     nine = [C(9)] * len(hv)
     head = F(pname, *hv) if hv else A(pname)
     head9 = F(pname, *nine) if hv else A(pname)
